@@ -67,12 +67,12 @@ directive @once(v: Int = 1, w: Float = 2) on FIELD | QUERY | FRAGMENT_DEFINITION
 	`type Query { a: Int b(x: Int): String q: Query }
 `,
 	// S3: the same field name with the same argument name at different scalar types on parents that may apply together
-	`type Query { any: Any thing: Thing }
+	`type Query { any: Any thing: Thing bill: Bill }
 interface Any { id: ID }
 interface Priced { cost(x: Float, f: PF): Int label(s: ID): String }
 interface Billed { cost(x: Int, f: BF): Int label(s: String): String }
-type Thing implements Any & Priced { id: ID cost(x: Float, f: PF): Int label(s: ID): String }
-type Bill implements Any & Billed { id: ID cost(x: Int, f: BF): Int label(s: String): String }
+type Thing implements Any & Priced { id: ID cost(x: Float, f: PF): Int label(s: ID): String items(first: Int, after: String): Int }
+type Bill implements Any & Billed { id: ID cost(x: Int, f: BF): Int label(s: String): String items(first: Int, last: Int): Int }
 input PF { v: Float w: [Float] }
 input BF { v: Int w: [Int] }
 `,
